@@ -1,7 +1,10 @@
 /-
 Helper lemmas for C17 (byte/bit facts about `NodeLabel`).
-The lemmas are split over `LabelBytes` (bytes vs. bits), `LabelLex` (bit-string order and
-common prefixes) and `LabelSearch` (sorting and binary search).
+The lemmas are split over `LabelBytes` (bytes vs. bits), `LabelLex` (bit-string order, common
+prefixes, `cmp`/`lcp`/`prefixOrdering`), `LabelSearch` (sorting and binary search) and
+`LabelSets` (the `AzksElementSet` operations).
 -/
 import AkdModel.Lemmas.LabelBytes
 import AkdModel.Lemmas.LabelLex
+import AkdModel.Lemmas.LabelSearch
+import AkdModel.Lemmas.LabelSets
